@@ -10,7 +10,7 @@ CONSTANTS
   Concurrent = FALSE
   RecordHist = TRUE
 INVARIANT Emit
-INVARIANTS Agreement ResponderSound InitiatorSound MutualChoice FaultNeverSuccess PoolClean
+INVARIANTS Agreement ResponderSound InitiatorSound MutualChoice FaultNeverSuccess CorruptionEndsBoth PoolClean
 PROPERTY Terminates
 VIEW view
 CHECK_DEADLOCK FALSE
